@@ -102,18 +102,24 @@ def same_start(ctx, k, master, n=6, by_index=False):
     ctx.claim('section_average_by_index_same', ctx.eq(sig.get_section_average(start=lo, end=hi, index=True), m_av, 10.0))
 
 
-def time_match(ctx, n, steps, lag, k=2, master=0):
+def time_match(ctx, n, steps, lag, k=2, master=0, lags=None):
     """signal `1 - master`... every non-master signal is the master delayed (lag>0) or advanced (lag<0) by |lag|."""
     lib = ctx.lib
     base = ctx.arr('m', n, -10.0, 10.0)
     bl = list(base)
     recs = []
     fills = []
+
+    def lag_of(j):
+        # lags (one entry per non-master signal, in cluster order; 0 = already in phase) overrides the alternating pattern
+        if lags is not None:
+            return lags[[i for i in range(k) if i != master].index(j)]
+        return lag if (j % 2 == 1 or k == 2) else -lag
     for j in range(k):
         if j == master:
             recs.append(base)
             continue
-        L = lag if (j % 2 == 1 or k == 2) else -lag
+        L = lag_of(j)
         f = [ctx.real('fill%d_%d' % (j, t), -10.0, 10.0) for t in range(abs(L))]
         fills.append(f)
         if L >= 0:
@@ -128,7 +134,7 @@ def time_match(ctx, n, steps, lag, k=2, master=0):
         if j == master:
             continue
         om = list(recs[j])
-        L = lag if (j % 2 == 1 or k == 2) else -lag
+        L = lag_of(j)
         for cand in range(-(steps - 1), steps):
             if cand == L:
                 continue
@@ -146,11 +152,11 @@ def time_match(ctx, n, steps, lag, k=2, master=0):
         if j == master:
             ctx.claim('master_unchanged', S.sym_and(*[ctx.eq(vals[i], bl[i], 10.0) for i in range(n)]))
             continue
-        L = lag if (j % 2 == 1 or k == 2) else -lag
+        L = lag_of(j)
         rng = range(0, n - L) if L >= 0 else range(-L, n)
         ctx.claim('overlapping_samples_coincide_after_matching',
                   S.sym_and(*[ctx.eq(vals[i], bl[i], 10.0) for i in rng]), (j, L))
-    if lag != 0:
+    if lag_of(1 if master == 0 else 0) != 0:
         sig = cl.signal_by_index(1 if master == 0 else 0)
         try:
             sig.add_constant(1.0)
@@ -189,3 +195,10 @@ def obligations(tier, seed):
     if not q:
         yield Ob('time_match', {'n': 8, 'steps': 2, 'lag': -1, 'k': 2, 'master': 1}, query_ms=60000, timeout_s=900)
     yield Ob('time_match', {'n': 8, 'steps': 2, 'lag': 1, 'k': 4, 'master': 0}, query_ms=60000, timeout_s=900)
+    # clusters whose non-master signals have different lags, some already in phase (state carried from one signal to
+    # the next would show here)
+    for kk, master, lags in ((3, 0, [1, 0]), (3, 0, [0, 1]), (3, 1, [1, 0]), (3, 2, [-1, 0]), (4, 0, [1, 0, -1]),
+                             (4, 1, [0, 1, 0])) + (() if q else ((3, 0, [2, 0]), (3, 0, [-2, 1]), (4, 3, [2, 0, 1]))):
+        st = 3 if max(abs(x) for x in lags) > 1 else 2
+        yield Ob('time_match', {'n': 8, 'steps': st, 'lag': 0, 'k': kk, 'master': master, 'lags': lags}, query_ms=60000,
+                 timeout_s=900)
